@@ -37,12 +37,20 @@ Proof. intros H. cbn [str_replace]. rewrite H. reflexivity. Qed.
 
 (* a reference whose column text is neither "n/a" nor empty is replaced by plain, literal
    substitution, for every text, reference name and value *)
+Lemma not_blank_not_empty (v : str) : is_blank v = false -> is_empty v = false.
+Proof. destruct v; [discriminate | reflexivity]. Qed.
+
+(* [keep_part v = true]: v is not "n/a", not empty and not blanks only (since d53ebab) *)
 Theorem replace_ref_literal (text ref v : str) :
-  skipped v = false -> replace_ref true text ref v = Ok (str_replace (brace ref) v text 0).
-Proof. unfold skipped, replace_ref. intros H. rewrite H. reflexivity. Qed.
+  keep_part v = true -> replace_ref true text ref v = Ok (str_replace (brace ref) v text 0).
+Proof.
+  unfold keep_part. intros H. apply andb_true_iff in H. destruct H as [Hb Hn].
+  apply negb_true_iff in Hb. apply negb_true_iff in Hn.
+  unfold replace_ref, replace_ref_gen. rewrite Hn, Hb, (not_blank_not_empty _ Hb). reflexivity.
+Qed.
 
 Corollary replace_ref_hit (rest ref v : str) :
-  skipped v = false ->
+  keep_part v = true ->
   replace_ref true (brace ref ++ rest) ref v = Ok (v ++ str_replace (brace ref) v rest 0).
 Proof.
   intros H. rewrite (replace_ref_literal _ _ _ H). f_equal. apply str_replace_hit.
